@@ -104,6 +104,10 @@ def main(tier):
             ck.cut('variant not run')
             continue
         r, files = res
+        if r.timeout:
+            # slow schedule on a loaded machine: no verdict for this variant (termination is C07's subject, not C08's)
+            ck.cut('variant %s on %s exceeded the time limit' % (label, ns))
+            continue
         ck.count()
         wantfiles = {}
         for n in ns:
